@@ -343,7 +343,7 @@ theorem afterUser_wf (F : Facts13) (cfg : Cfg) (req : Req) (r : Resp) (hF : F.Go
   have hm := Good.errMat hF
   have hc : (if r.serializeFails then
         withAux req req.auxOnErrors F.auxGuardError
-          (errorOut F req (if F.lateErrorKeepsOkStatus then some (r.preset.getD F.okStatus) else r.preset) .server)
+          (errorOut F req (if F.lateErrorKeepsOkStatus then some (r.preset.getD F.okStatus) else r.preset) r.serFailClass)
       else withAux req true F.auxGuardOk (withReturnListener F cfg req r)).WF := by
     rw [h9, h10]
     split
@@ -363,6 +363,7 @@ theorem intendedResult_wf (F : Facts13) (cfg : Cfg) (req : Req) (hF : F.Good) :
   have hm := Good.errMat hF
   unfold intendedResult
   split
+  · exact errorOut_wf _ _ _ _ h1 h8 hm
   · exact errorOut_wf _ _ _ _ h1 h8 hm
   · exact errorOut_wf _ _ _ _ h1 h8 hm
   · exact errorOut_wf _ _ _ _ h1 h8 hm
@@ -1211,6 +1212,7 @@ theorem process_status (F : Facts13) (cfg : Cfg) (req : Req) (stream : List Nat)
     · exact he _ _ h
     · exact he _ _ h
     · exact he _ _ h
+    · exact he _ _ h
     · rename_i fc preset hint
       exact hAux _ _ _ _ h (fun o' h' => heP _ _ _ (by intro x hx; subst hx; simp [Req.presets, hint]) h')
     · rename_i r hint
@@ -1250,7 +1252,7 @@ theorem process_status (F : Facts13) (cfg : Cfg) (req : Req) (stream : List Nat)
               exact hs0 r o' hpr ho'
       have hc : ∀ o, (if r.serializeFails then
             withAux req req.auxOnErrors F.auxGuardError
-              (errorOut F req (if F.lateErrorKeepsOkStatus then some (r.preset.getD F.okStatus) else r.preset) .server)
+              (errorOut F req (if F.lateErrorKeepsOkStatus then some (r.preset.getD F.okStatus) else r.preset) r.serFailClass)
           else withAux req true F.auxGuardOk (withReturnListener F cfg req r)) = .out o →
           StatusSource F req o.status := by
         intro o h
@@ -1258,7 +1260,7 @@ theorem process_status (F : Facts13) (cfg : Cfg) (req : Req) (stream : List Nat)
         · refine hAux _ _ _ _ h (fun o' h' => ?_)
           simp only [errorOut, Result.out.injEq] at h'; subst h'
           cases hk : F.lateErrorKeepsOkStatus
-          · simp only [Bool.false_eq_true, if_false]; exact hp _ _ hpr (hfs .server)
+          · simp only [Bool.false_eq_true, if_false]; exact hp _ _ hpr (hfs _)
           · simp only [if_true, Option.getD_some]; exact hp _ _ hpr hok
         · exact hAux _ _ _ _ h (fun o' h' => hs _ h')
       unfold afterUser at h
